@@ -761,6 +761,12 @@ func (e *specEnv) callExpr(k *ast.CallExpr) Val {
 			return e.convertTo(e.expr(k.Args[0]), t)
 		}
 	}
+	// conversion with a parenthesised type: (*T)(x), ([]byte)(x)
+	if pe, ok := k.Fun.(*ast.ParenExpr); ok && len(k.Args) == 1 {
+		if t := c.evalType(types.ExprString(pe.X), e.pkg()); t != nil {
+			return e.convertTo(e.expr(k.Args[0]), t)
+		}
+	}
 	// pure method call on a value: x.M(args) -> inline the real method
 	if sel, ok := k.Fun.(*ast.SelectorExpr); ok {
 		return e.methodCall(sel, k.Args)
